@@ -1026,22 +1026,392 @@ theorem jfrag_marker_refines {c : Ast} {sc : List Uid} (h : C06.JFrag c sc) (db 
     ∃ r2 n2, compile (.subqueryMarker i c) needed = .ok (r2, n2) ∧ Sql.run db r2 = (Spec.run db (.subqueryMarker i c)).frame :=
   refines_marker_refines (fun db needed => C06.jfrag_refines h db needed) (wrap_needed_mono (JFrag.wrap h)) db i needed hneed hnames
 
+/-! ### a `filter` directly above the marker -/
+
+/-- refinement at the level of column identities: the SELECT lists the visible columns of the reference table, and exports its frame -/
+structure RefU (db : DB) (r : Compiled) (t : STbl) : Prop where
+  sel : r.query.select = t.visible.map (·.2)
+  frame : Sql.run db r = t.frame
+
+theorem refU_rows (db : DB) (r : Compiled) (t : STbl) (h : RefU db r t) :
+    (evalSelect (evalSrc db r.src) r.query r.defs).map (fun row => r.query.select.map row.get) = t.rows.map (fun s => r.query.select.map s.get) := by
+  have := congrArg Prod.snd h.frame
+  simp only [Sql.run, STbl.frame] at this
+  rw [this, h.sel]
+  simp only [List.map_map]
+  rfl
+
+/-- the rows the subquery delivers, read on the visible columns, are the rows of the SELECT it wraps -/
+theorem inner_proj (db : DB) (r : Compiled) (n1 : Needed) (h : Ready r n1) :
+    (evalSrc db (markerOf r n1).src).map (fun b => r.query.select.map b.get) =
+      (evalSelect (evalSrc db r.src) r.query r.defs).map (fun row => r.query.select.map row.get) := by
+  unfold markerOf
+  simp only [evalSrc]
+  unfold mInnerDefs
+  rw [evalSelect_same _ _ r.defs _ (relabel_same r.defs _)]
+  exact evalSelect_proj _ r.query r.defs _ r.query.select (sel_in_names r n1 h) (fun u hu => hu) (h.agg _ (sel_in_names r n1 h))
+
+theorem outer_defs_ewise (r : Compiled) (n1 : Needed) : DefsEwise (mOuterDefs r n1) := by
+  intro u n x hg
+  have := outer_shape r n1 u (n, x) hg
+  simp only at this
+  rw [this]; rfl
+
+theorem outer_agree (r : Compiled) (n1 : Needed) (b : Row) : Agree (mOuterDefs r n1) b b := by
+  intro u n x hg
+  have := outer_shape r n1 u (n, x) hg
+  simp only at this
+  rw [this]; rfl
+
+theorem outer_not_agg_q (r : Compiled) (n1 : Needed) (q : Query) (hg : q.groupBy = []) : isAggQuery q (mOuterDefs r n1) = false := by
+  rw [isAggQuery_eq, hg]
+  simp only [List.isEmpty_nil, Bool.not_true, Bool.false_or]
+  rw [List.any_eq_false]
+  intro u _
+  unfold aggAt
+  cases hgu : (mOuterDefs r n1).get u with
+  | none => simp
+  | some p =>
+    have := outer_shape r n1 u p hgu
+    obtain ⟨nm, e⟩ := p
+    simp only at this
+    subst this
+    simp [isAggQuery.aggNodes, Cache.aggWindowNodes]
+
+/-- the outer SELECT with a WHERE: the rows of the subquery that pass it, read back column by column -/
+theorem outer_rows_where (r : Compiled) (n1 : Needed) (h : Ready r n1) (base1 : List Row) (pb : List (Uid × Bool)) (W : List Expr)
+    (hW : isEwiseList W = true) (hWu : ∀ u ∈ Expr.uidsList W, u ∈ r.query.select) :
+    evalSelect base1 { select := r.query.select, partitionBy := pb, where_ := W } (mOuterDefs r n1) =
+      (base1.filter (keeps W)).map (fun b => r.query.select.zip (r.query.select.map b.get)) := by
+  rw [evalSelect_rows _ _ _ (outer_not_agg_q r n1 _ rfl) rfl rfl rfl]
+  simp only
+  have hwi : isEwiseList (W.map (Sql.inline (mOuterDefs r n1))) = true := by
+    rw [isEwiseList_iff]; intro e he
+    obtain ⟨p, hp, rfl⟩ := List.mem_map.1 he
+    exact inline_ewise _ (outer_defs_ewise r n1) p ((isEwiseList_iff _).1 hW p hp)
+  have hcov : Covers (mOuterDefs r n1) (Expr.uidsList W) := by
+    intro u hu; rw [outer_get r n1 h u (hWu u hu)]; rfl
+  have hfilt : filterRows base1 (W.map (Sql.inline (mOuterDefs r n1))) = base1.filter (keeps W) := by
+    rw [filterRows_ewise _ _ hwi]
+    apply List.filter_congr
+    intro b _
+    exact keeps_inline _ b b (outer_agree r n1 b) W hcov
+  rw [hfilt]
+  generalize base1.filter (keeps W) = F
+  have : ∀ i, (r.query.select.map (fun u => (evalUnits (singletons F) (Sql.inline (mOuterDefs r n1) (.col u .null .elementWise))).getD i .null)) =
+      r.query.select.map (fun u => (F.getD i []).get u) := by
+    intro i
+    apply List.map_congr_left
+    intro u hu
+    simp only [Sql.inline, outer_get r n1 h u hu, evalUnits, singletons, List.map_map]
+    exact getD_map_get F u i
+  simp only [this]
+  conv => rhs; rw [← range_map_getD F []]
+  rw [List.map_map]
+  rfl
+
+theorem filter_map_congr {α β} (π : α → β) (p q : α → Bool) (hpq : ∀ a b, π a = π b → p a = q b) :
+    ∀ (l1 l2 : List α), l1.map π = l2.map π → (l1.filter p).map π = (l2.filter q).map π
+  | [], [], _ => rfl
+  | [], _ :: _, h => by simp at h
+  | _ :: _, [], h => by simp at h
+  | a :: as, b :: bs, h => by
+      simp only [List.map_cons, List.cons.injEq] at h
+      have ih := filter_map_congr π p q hpq as bs h.2
+      have := hpq a b h.1
+      simp only [List.filter_cons, this]
+      cases q b <;> simp [ih, h.1]
+
+theorem proj_get (S : List Uid) (b s : Row) (h : S.map b.get = S.map s.get) (u : Uid) (hu : u ∈ S) : b.get u = s.get u := by
+  induction S with
+  | nil => simp at hu
+  | cons x xs ih =>
+    simp only [List.map_cons, List.cons.injEq] at h
+    rcases List.mem_cons.1 hu with rfl | hu
+    · exact h.1
+    · exact ih h.2 hu
+
+theorem compile_filter (i : NodeId) (c : Ast) (preds : List Expr) (needed : Needed) (rc : Compiled) (nc : Needed)
+    (hc : compile c ((uidsOfVerb (.filter i c preds)).foldl Needed.incr needed) = .ok (rc, nc)) :
+    compile (.filter i c preds) needed =
+      .ok ({ rc with query := if !rc.query.groupBy.isEmpty then { rc.query with having := rc.query.having ++ preds } else { rc.query with where_ := rc.query.where_ ++ preds } },
+           (uidsOfVerb (.filter i c preds)).foldl Needed.decr nc) := by
+  simp only [compile, hc, bind, Except.bind, pure, Except.pure]
+
+/-- **`… >> alias() >> filter(p)` with the alias materialised as a subquery**: whatever SELECT the pipeline below accumulated, the
+    filter is evaluated on its *result* (the rows the subquery delivers), as in the reference semantics -/
+theorem filter_above_marker (db : DB) (j m : NodeId) (c : Ast) (W : List Expr) (needed : Needed) (r : Compiled) (n1 : Needed)
+    (hc : compile c ((uidsOfVerb (.filter j (.subqueryMarker m c) W)).foldl Needed.incr needed) = .ok (r, n1))
+    (h : Ready r n1) (href : RefU db r (Spec.run db c))
+    (hW : isEwiseList W = true) (hWu : ∀ u ∈ Expr.uidsList W, u ∈ r.query.select) :
+    ∃ r3 n3, compile (.filter j (.subqueryMarker m c) W) needed = .ok (r3, n3) ∧
+      Sql.run db r3 = (Spec.run db (.filter j (.subqueryMarker m c) W)).frame := by
+  have hcm := compile_marker m c _ r n1 hc
+  have hcf := compile_filter j (.subqueryMarker m c) W needed (markerOf r n1) (mNeeded r n1) hcm
+  refine ⟨_, _, hcf, ?_⟩
+  have hgb : (markerOf r n1).query.groupBy = [] := rfl
+  have hwh : (markerOf r n1).query.where_ = [] := rfl
+  simp only [hgb, hwh, List.isEmpty_nil, Bool.not_true, Bool.false_eq_true, ↓reduceIte, List.nil_append]
+  · unfold Sql.run
+    simp only
+    have hsel : (markerOf r n1).query.select = r.query.select := by
+      simp only [markerOf]; exact outer_select r n1 h
+    have hq : ({ select := (markerOf r n1).query.select, partitionBy := (markerOf r n1).query.partitionBy, where_ := W,
+                 having := (markerOf r n1).query.having, orderBy := (markerOf r n1).query.orderBy, limit := (markerOf r n1).query.limit,
+                 offset := (markerOf r n1).query.offset } : Query) = { select := r.query.select, partitionBy := r.query.partitionBy, where_ := W } := by
+      simp only [markerOf, outer_select r n1 h]
+    rw [hq, hsel]
+    have hdefs : (markerOf r n1).defs = mOuterDefs r n1 := rfl
+    rw [hdefs, outer_rows_where r n1 h _ _ W hW hWu]
+    simp only [STbl.frame, Spec.run]
+    congr 1
+    · have hl := congrArg Prod.fst href.frame
+      simp only [Sql.run, STbl.frame] at hl
+      rw [← hl]
+      apply List.map_congr_left
+      intro u hu
+      simp only [Defs.name, outer_get r n1 h u hu, Option.map_some, Option.getD_some]
+    · rw [List.map_map]
+      have hrd : ∀ b : Row, r.query.select.map (Row.get (r.query.select.zip (r.query.select.map b.get))) = r.query.select.map b.get :=
+        fun b => C07.map_get_zip_self _ _
+      simp only [Function.comp_def, hrd]
+      have hsrc : (markerOf r n1).src = (markerOf r n1).src := rfl
+      rw [filterRows_ewise _ _ hW]
+      have hproj := (inner_proj db r n1 h).trans (refU_rows db r _ href)
+      have hvis : (fun (s : Row) => (Spec.run db c).visible.map (fun e => s.get e.2)) = (fun s => r.query.select.map s.get) := by
+        funext s; rw [href.sel, List.map_map]; rfl
+      rw [hvis]
+      apply filter_map_congr (fun b : Row => r.query.select.map b.get) (keeps W) (keeps W) _ _ _ hproj
+      intro a b hab
+      exact keeps_congr W b a (fun u hu => proj_get _ a b hab u (hWu u hu))
+
+/-! ### a window `mutate` below the marker -/
+
+def mutOut (r : Compiled) (L : List (String × Uid × Expr)) : Compiled :=
+  { r with query := { r.query with select := r.query.select.filter (fun u => !(L.map (·.1)).contains (r.defs.name u)) ++ L.map (·.2.1) }, defs := r.defs ++ newDefs r.defs L }
+
+theorem zip_names_snd : ∀ (L : List (String × Uid × Expr)), ((L.map (·.1)).zip (L.map (·.2.1))).map (·.2) = L.map (·.2.1)
+  | [] => rfl
+  | t :: ts => by simp only [List.map_cons, List.zip_cons_cons, List.cons.injEq, true_and]; exact zip_names_snd ts
+
+/-- what the compiler returns for a `mutate` with window functions (partitioned aggregates, nestings of them) over a base pipeline:
+    it is ready to be wrapped, and refines the reference semantics at the level of column identities -/
+theorem window_below {c : Ast} {sc : List Uid} (h : Base c sc) (hm : NeededMono c) (db : DB) (i : NodeId)
+    (L : List (String × Uid × Expr)) (metas : List (Dtype × Ftype))
+    (hv : ∀ t ∈ L, ∀ u ∈ t.2.2.uids, u ∈ sc) (hna : ∀ t ∈ L, isAggQuery.aggNodes t.2.2 = false)
+    (hfresh : ∀ t ∈ L, t.2.1 ∉ sc) (hnd : (L.map (·.2.1)).Nodup) (needed : Needed)
+    (hneed : ∀ u ∈ (Spec.run db c).visible.map (·.2) ++ L.map (·.2.1), 1 ≤ low needed u)
+    (hnames : ((Spec.run db (.mutate i c (L.map (·.1)) (L.map (·.2.2)) (L.map (·.2.1)) metas)).visible.map (·.1)).Nodup) :
+    ∃ rs ns, compile (.mutate i c (L.map (·.1)) (L.map (·.2.2)) (L.map (·.2.1)) metas) needed = .ok (rs, ns) ∧ Ready rs ns ∧
+      RefU db rs (Spec.run db (.mutate i c (L.map (·.1)) (L.map (·.2.2)) (L.map (·.2.1)) metas)) := by
+  obtain ⟨rs, ns, hcs, href⟩ := sql_refines_spec_mutate_any h db i L metas hv hna hfresh hnd needed
+  obtain ⟨r, n', hc, inv⟩ := h.ref db
+    ((uidsOfVerb (.mutate i c (L.map (·.1)) (L.map (·.2.2)) (L.map (·.2.1)) metas)).foldl Needed.incr needed)
+  have hz : ((L.map (·.1)).zip ((L.map (·.2.1)).zip (L.map (·.2.2)))).map (fun nuv => (nuv.2.1, nuv.1, Sql.inline r.defs nuv.2.2)) = newDefs r.defs L := by
+    rw [zip3_map, List.map_map]; rfl
+  have hndkeys : (newDefs r.defs L).map (·.1) = L.map (·.2.1) := by unfold newDefs; rw [List.map_map]; rfl
+  have hfr : ∀ e ∈ newDefs r.defs L, (r.defs.get e.1).isSome = false := by
+    intro e he
+    obtain ⟨t, ht, rfl⟩ := List.mem_map.1 he
+    rw [Bool.eq_false_iff, Ne, inv.hkeys]
+    exact hfresh t ht
+  have hfold : (newDefs r.defs L).foldl (fun d e => d.set e.1 e.2) r.defs = r.defs ++ newDefs r.defs L :=
+    foldl_set_fresh _ _ hfr (by rw [hndkeys]; exact hnd)
+  have hcs2 : compile (.mutate i c (L.map (·.1)) (L.map (·.2.2)) (L.map (·.2.1)) metas) needed =
+      .ok (mutOut r L, (uidsOfVerb (.mutate i c (L.map (·.1)) (L.map (·.2.2)) (L.map (·.2.1)) metas)).foldl Needed.decr n') := by
+    simp only [compile, hc, bind, Except.bind, pure, Except.pure, hz, hfold, mutOut]
+  rw [hcs2] at hcs
+  simp only [Except.ok.injEq, Prod.mk.injEq] at hcs
+  obtain ⟨hrs, hns⟩ := hcs
+  have hmono := wrap_needed_mono (Wrap.mutate i (L.map (·.1)) (L.map (·.2.2)) (L.map (·.2.1)) metas (Wrap.leaf hm)) needed rs ns (by rw [hcs2, hrs, hns])
+  have hlab : rs.query.select.map rs.defs.name =
+      (Spec.run db (.mutate i c (L.map (·.1)) (L.map (·.2.2)) (L.map (·.2.1)) metas)).visible.map (·.1) := by
+    have := congrArg Prod.fst href
+    simpa [Sql.run, STbl.frame] using this
+  have hdefNew : ∀ t ∈ L, Defs.get (r.defs ++ newDefs r.defs L) t.2.1 = some (t.1, Sql.inline r.defs t.2.2) := by
+    intro t ht
+    rw [get_append_right_defs _ _ _ (by rw [Bool.eq_false_iff, Ne, inv.hkeys]; exact hfresh t ht)]
+    have hmem : (t.2.1, t.1, Sql.inline r.defs t.2.2) ∈ newDefs r.defs L := List.mem_map.2 ⟨t, ht, rfl⟩
+    have := find_of_mem_nodup _ (by rw [hndkeys]; exact hnd) _ hmem
+    simp only [Defs.get]
+    simp only at this
+    rw [this]; rfl
+  have hready : Ready rs ns := by
+    refine ⟨?_, ?_, by rw [hlab]; exact hnames, fun N _ => ready_agg_none _ _ ?_ N⟩
+    · intro u hu
+      rw [← hrs] at hu
+      simp only [mutOut, List.mem_append, List.mem_filter] at hu
+      have hmem : u ∈ (Spec.run db c).visible.map (·.2) ++ L.map (·.2.1) := by
+        rcases hu with ⟨hu1, _⟩ | hu2
+        · rw [inv.hsel] at hu1; exact List.mem_append_left _ hu1
+        · exact List.mem_append_right _ hu2
+      exact any_of_low _ _ (Nat.le_trans (hneed u hmem) (hmono u))
+    · intro u hu
+      rw [← hrs] at hu ⊢
+      simp only [mutOut, List.mem_append, List.mem_filter] at hu ⊢
+      rcases hu with ⟨hu1, _⟩ | hu2
+      · rw [inv.hsel] at hu1
+        obtain ⟨e, he, rfl⟩ := List.mem_map.1 hu1
+        have hsc := inv.hvis e he
+        rw [get_append_left_defs _ _ _ ((inv.hkeys e.2).2 hsc)]
+        exact (inv.hkeys e.2).2 hsc
+      · obtain ⟨t, ht, rfl⟩ := List.mem_map.1 hu2
+        rw [hdefNew t ht]; rfl
+    · -- no definition is a plain aggregate: the old ones are element-wise, the new ones are the window expressions with element-wise definitions inlined
+      intro u p hp
+      rw [← hrs] at hp
+      simp only [mutOut] at hp
+      by_cases hu : u ∈ sc
+      · rw [get_append_left_defs _ _ _ ((inv.hkeys u).2 hu)] at hp
+        exact defsEwise_not_agg r.defs inv.hd u p hp
+      · rw [get_append_right_defs _ _ _ (by rw [Bool.eq_false_iff, Ne, inv.hkeys]; exact hu)] at hp
+        unfold Defs.get at hp
+        cases hf : (newDefs r.defs L).find? (·.1 == u) with
+        | none => rw [hf] at hp; simp at hp
+        | some y =>
+          rw [hf] at hp
+          simp only [Option.map_some, Option.some.injEq] at hp
+          have hy := List.mem_of_find?_eq_some hf
+          obtain ⟨t, ht, rfl⟩ := List.mem_map.1 hy
+          rw [← hp]
+          simp only
+          rw [aggNodes_eq r.defs inv.hd]
+          exact hna t ht
+  refine ⟨rs, ns, by rw [hcs2, hrs, hns], hready, ⟨?_, href⟩⟩
+  -- the select list is the list of visible identities
+  rw [← hrs]
+  simp only [mutOut, Spec.run, List.map_append]
+  congr 1
+  · rw [inv.hsel, List.filter_map]
+    congr 1
+    apply List.filter_congr
+    intro e he
+    simp only [Function.comp_apply, inv.hname e he]
+  · exact (zip_names_snd L).symm
+
+/-- **a `mutate` with window functions materialised as a subquery still refines the reference semantics** -/
+theorem window_marker_refines {c : Ast} {sc : List Uid} (h : Base c sc) (hm : NeededMono c) (db : DB) (m i : NodeId)
+    (L : List (String × Uid × Expr)) (metas : List (Dtype × Ftype))
+    (hv : ∀ t ∈ L, ∀ u ∈ t.2.2.uids, u ∈ sc) (hna : ∀ t ∈ L, isAggQuery.aggNodes t.2.2 = false)
+    (hfresh : ∀ t ∈ L, t.2.1 ∉ sc) (hnd : (L.map (·.2.1)).Nodup) (needed : Needed)
+    (hneed : ∀ u ∈ (Spec.run db c).visible.map (·.2) ++ L.map (·.2.1), 1 ≤ low needed u)
+    (hnames : ((Spec.run db (.mutate i c (L.map (·.1)) (L.map (·.2.2)) (L.map (·.2.1)) metas)).visible.map (·.1)).Nodup) :
+    ∃ r2 n2, compile (.subqueryMarker m (.mutate i c (L.map (·.1)) (L.map (·.2.2)) (L.map (·.2.1)) metas)) needed = .ok (r2, n2) ∧
+      Sql.run db r2 = (Spec.run db (.subqueryMarker m (.mutate i c (L.map (·.1)) (L.map (·.2.2)) (L.map (·.2.1)) metas))).frame := by
+  obtain ⟨rs, ns, hcs, hready, href⟩ := window_below h hm db i L metas hv hna hfresh hnd needed hneed hnames
+  exact refines_through_marker db m _ needed rs ns hcs hready href.frame
+
+/-- **`mutate(w = window function) >> alias() >> filter(p over w and the other visible columns)`**: the documented way to filter on a
+    window column.  The SQL compiler evaluates the window functions inside the subquery - over all rows - and the filter outside, as
+    the reference semantics does (without the alias this is known finding D1) -/
+theorem window_alias_filter_refines {c : Ast} {sc : List Uid} (h : Base c sc) (hm : NeededMono c) (db : DB) (j m i : NodeId)
+    (L : List (String × Uid × Expr)) (metas : List (Dtype × Ftype))
+    (hv : ∀ t ∈ L, ∀ u ∈ t.2.2.uids, u ∈ sc) (hna : ∀ t ∈ L, isAggQuery.aggNodes t.2.2 = false)
+    (hfresh : ∀ t ∈ L, t.2.1 ∉ sc) (hnd : (L.map (·.2.1)).Nodup) (needed : Needed)
+    (hneed : ∀ u ∈ (Spec.run db c).visible.map (·.2) ++ L.map (·.2.1), 1 ≤ low needed u)
+    (hnames : ((Spec.run db (.mutate i c (L.map (·.1)) (L.map (·.2.2)) (L.map (·.2.1)) metas)).visible.map (·.1)).Nodup)
+    (W : List Expr) (hW : isEwiseList W = true)
+    (hWu : ∀ u ∈ Expr.uidsList W, u ∈ (Spec.run db (.mutate i c (L.map (·.1)) (L.map (·.2.2)) (L.map (·.2.1)) metas)).visible.map (·.2)) :
+    ∃ r3 n3, compile (.filter j (.subqueryMarker m (.mutate i c (L.map (·.1)) (L.map (·.2.2)) (L.map (·.2.1)) metas)) W) needed = .ok (r3, n3) ∧
+      Sql.run db r3 = (Spec.run db (.filter j (.subqueryMarker m (.mutate i c (L.map (·.1)) (L.map (·.2.2)) (L.map (·.2.1)) metas)) W)).frame := by
+  have hneed1 : ∀ u ∈ (Spec.run db c).visible.map (·.2) ++ L.map (·.2.1),
+      1 ≤ low ((uidsOfVerb (.filter j (.subqueryMarker m (.mutate i c (L.map (·.1)) (L.map (·.2.2)) (L.map (·.2.1)) metas)) W)).foldl Needed.incr needed) u := by
+    intro u hu
+    rw [low_foldl_incr]
+    exact Nat.le_trans (hneed u hu) (Nat.le_add_right _ _)
+  obtain ⟨rs, ns, hcs, hready, href⟩ := window_below h hm db i L metas hv hna hfresh hnd _ hneed1 hnames
+  exact filter_above_marker db j m _ W needed rs ns hcs hready href hW (fun u hu => by rw [href.sel]; exact hWu u hu)
+
+/-- `… >> alias() >> filter(p)` over any pipeline with the invariant of the row-level fragment (row-level verbs, joins of sources) -/
+theorem refines_alias_filter {c : Ast} {sc : List Uid} (h : Refines c sc) (hm : NeededMono c) (db : DB) (j m : NodeId) (needed : Needed)
+    (hneed : ∀ e ∈ (Spec.run db c).visible, 1 ≤ low needed e.2)
+    (hnames : ((Spec.run db c).visible.map (·.1)).Nodup)
+    (W : List Expr) (hW : isEwiseList W = true) (hWu : ∀ u ∈ Expr.uidsList W, u ∈ (Spec.run db c).visible.map (·.2)) :
+    ∃ r3 n3, compile (.filter j (.subqueryMarker m c) W) needed = .ok (r3, n3) ∧
+      Sql.run db r3 = (Spec.run db (.filter j (.subqueryMarker m c) W)).frame := by
+  obtain ⟨r, n1, hc, inv⟩ := h db ((uidsOfVerb (.filter j (.subqueryMarker m c) W)).foldl Needed.incr needed)
+  have hmono := hm _ r n1 hc
+  have hready : Ready r n1 := by
+    refine ⟨?_, ?_, ?_, fun N _ => ready_agg_none _ _ (defsEwise_not_agg r.defs inv.hd) N⟩
+    · intro u hu
+      rw [inv.hsel] at hu
+      obtain ⟨e, he, rfl⟩ := List.mem_map.1 hu
+      refine any_of_low _ _ (Nat.le_trans ?_ (hmono e.2))
+      rw [low_foldl_incr]
+      exact Nat.le_trans (hneed e he) (Nat.le_add_right _ _)
+    · intro u hu
+      rw [inv.hsel] at hu
+      obtain ⟨e, he, rfl⟩ := List.mem_map.1 hu
+      exact (inv.hkeys e.2).2 (inv.hvis e he)
+    · rw [inv.hsel, C07.labels_eq r.defs _ inv.hname]
+      exact hnames
+  exact filter_above_marker db j m c W needed r n1 hc hready ⟨inv.hsel, inv_refines db sc r _ inv⟩ hW (fun u hu => by rw [inv.hsel]; exact hWu u hu)
+
+/-- `arrange(..) >> slice_head(n) >> alias() >> filter(p)`: the filter sees the rows the LIMIT kept, in their order -/
+theorem ofrag_alias_filter {c : Ast} {sc : List Uid} {lim : Bool} (h : OFrag c sc lim) (hw : Wrap c) (db : DB) (j m : NodeId) (needed : Needed)
+    (hneed : ∀ e ∈ (Spec.run db c).visible, 1 ≤ low needed e.2)
+    (hnames : ((Spec.run db c).visible.map (·.1)).Nodup)
+    (W : List Expr) (hW : isEwiseList W = true) (hWu : ∀ u ∈ Expr.uidsList W, u ∈ (Spec.run db c).visible.map (·.2)) :
+    ∃ r3 n3, compile (.filter j (.subqueryMarker m c) W) needed = .ok (r3, n3) ∧
+      Sql.run db r3 = (Spec.run db (.filter j (.subqueryMarker m c) W)).frame := by
+  obtain ⟨r, n1, hc, inv⟩ := ofrag_inv h db ((uidsOfVerb (.filter j (.subqueryMarker m c) W)).foldl Needed.incr needed)
+  have hmono := wrap_needed_mono hw _ r n1 hc
+  have hready : Ready r n1 := by
+    refine ⟨?_, ?_, ?_, fun N _ => ready_agg_none _ _ (defsEwise_not_agg r.defs inv.hd) N⟩
+    · intro u hu
+      rw [inv.hsel] at hu
+      obtain ⟨e, he, rfl⟩ := List.mem_map.1 hu
+      refine any_of_low _ _ (Nat.le_trans ?_ (hmono e.2))
+      rw [low_foldl_incr]
+      exact Nat.le_trans (hneed e he) (Nat.le_add_right _ _)
+    · intro u hu
+      rw [inv.hsel] at hu
+      obtain ⟨e, he, rfl⟩ := List.mem_map.1 hu
+      exact (inv.hkeys e.2).2 (inv.hvis e he)
+    · rw [inv.hsel, C07.labels_eq r.defs _ inv.hname]
+      exact hnames
+  exact filter_above_marker db j m c W needed r n1 hc hready ⟨inv.hsel, invO_refines db sc lim r _ inv⟩ hW (fun u hu => by rw [inv.hsel]; exact hWu u hu)
+
+/-- non-vacuity of `window_alias_filter_refines`: `mutate(rn = row_number(arrange = a desc)) >> alias() >> filter(rn <= 2)` over a source -/
+example :
+    let L : List (String × Uid × Expr) := [("rn", 12, .fn "row_number" [] none [(.col 10 .int64 .elementWise, true, some true)])]
+    let W : List Expr := [.fn "less_equal" [.col 12 .int64 .window, .lit (.int 2) .int64] none []]
+    Base (.source 1 "t" [("a", 10, .int64), ("b", 11, .int64)] .sqlite) [10, 11] ∧
+    NeededMono (.source 1 "t" [("a", 10, .int64), ("b", 11, .int64)] .sqlite) ∧
+    (∀ t ∈ L, ∀ u ∈ t.2.2.uids, u ∈ [(10 : Uid), 11]) ∧ (∀ t ∈ L, isAggQuery.aggNodes t.2.2 = false) ∧ (∀ t ∈ L, t.2.1 ∉ [(10 : Uid), 11]) ∧
+    isEwiseList W = true ∧ (∀ u ∈ Expr.uidsList W, u ∈ [(10 : Uid), 11, 12]) ∧ (∀ u ∈ [(10 : Uid), 11, 12], 1 ≤ low [(10, 1), (11, 1), (12, 1)] u) :=
+  ⟨Frag.base (Frag.source 1 "t" _ .sqlite (by decide)), Frag.neededMono (Frag.source 1 "t" _ .sqlite (by decide)),
+   by decide +kernel, by decide +kernel, by decide +kernel, by decide +kernel, by decide +kernel, by decide +kernel⟩
+
 /-! ### a grouped summarize below the marker -/
 
 def sumOut (r : Compiled) (K : List (Uid × ColMeta)) (L : List (String × Uid × Expr)) : Compiled :=
   { r with query := { r.query with groupBy := K.map (·.1), select := (K.map (·.1)).filter (fun u => !(L.map (·.1)).contains (Defs.name (r.defs ++ newDefs r.defs L) u)) ++ L.map (·.2.1), partitionBy := [], orderBy := [] }, defs := r.defs ++ newDefs r.defs L }
 
-/-- **a grouped `summarize` materialised as a subquery still refines the reference semantics** (`summarize >> alias() >> …`, the
-    usual way to filter or join on aggregated values) -/
-theorem grouped_marker_refines {c : Ast} {sc : List Uid} (h : Base c sc) (hm : NeededMono c) (db : DB) (m j i : NodeId)
+theorem sel_keys (K : List (Uid × ColMeta)) (names : List String) (nm nm2 : Uid → String) (h : ∀ cu ∈ K, nm2 cu.1 = nm cu.1) :
+    (K.filter ((fun u => !names.contains (nm2 u)) ∘ fun x => x.1)).map (·.1) =
+      ((K.map ((fun u => (nm u, u)) ∘ fun x => x.1)).filter (fun e => !names.contains e.1)).map (·.2) := by
+  induction K with
+  | nil => rfl
+  | cons cu cs ih =>
+    have h1 := h cu List.mem_cons_self
+    have ih2 := ih (fun x hx => h x (List.mem_cons_of_mem _ hx))
+    simp only [List.filter_cons, List.map_cons, Function.comp_apply, h1]
+    cases hcn : names.contains (nm cu.1)
+    · simp only [Bool.not_false, ↓reduceIte, List.map_cons, ih2]
+    · simp only [Bool.not_true, Bool.false_eq_true, ↓reduceIte, ih2]
+
+/-- what the compiler returns for `group_by(K) >> summarize(L)` over a base pipeline: ready to be wrapped, and a refinement at the
+    level of column identities -/
+theorem grouped_below {c : Ast} {sc : List Uid} (h : Base c sc) (hm : NeededMono c) (db : DB) (j i : NodeId)
     (K : List (Uid × ColMeta)) (hK : K ≠ []) (hKsc : ∀ cu ∈ K, cu.1 ∈ sc) (hKnc : ∀ cu ∈ K, cu.2.dtype.isConst = false)
     (hKnd : (K.map (·.1)).Nodup) (hKvis : ∀ cu ∈ K, ∃ e ∈ (Spec.run db c).visible, e.2 = cu.1)
     (L : List (String × Uid × Expr)) (metas : List (Dtype × Ftype))
     (hv : ∀ t ∈ L, ∀ u ∈ t.2.2.uids, u ∈ sc) (hfresh : ∀ t ∈ L, t.2.1 ∉ sc) (hnd : (L.map (·.2.1)).Nodup) (needed : Needed)
     (hneed : ∀ u ∈ K.map (·.1) ++ L.map (·.2.1), 1 ≤ low needed u)
     (hnames : ((Spec.run db (.summarize i (.groupBy j c K false) (L.map (·.1)) (L.map (·.2.2)) (L.map (·.2.1)) metas)).visible.map (·.1)).Nodup) :
-    ∃ r2 n2, compile (.subqueryMarker m (.summarize i (.groupBy j c K false) (L.map (·.1)) (L.map (·.2.2)) (L.map (·.2.1)) metas)) needed = .ok (r2, n2) ∧
-      Sql.run db r2 = (Spec.run db (.subqueryMarker m (.summarize i (.groupBy j c K false) (L.map (·.1)) (L.map (·.2.2)) (L.map (·.2.1)) metas))).frame := by
+    ∃ rs ns, compile (.summarize i (.groupBy j c K false) (L.map (·.1)) (L.map (·.2.2)) (L.map (·.2.1)) metas) needed = .ok (rs, ns) ∧ Ready rs ns ∧
+      RefU db rs (Spec.run db (.summarize i (.groupBy j c K false) (L.map (·.1)) (L.map (·.2.2)) (L.map (·.2.1)) metas)) := by
   -- the refinement below the marker
   obtain ⟨rs, ns, hcs, href⟩ := sql_refines_spec_grouped_gen h db j i K hK hKsc hKnc hKnd hKvis L metas hv hfresh hnd needed
   -- … and what the compiler returned there, explicitly
@@ -1104,6 +1474,54 @@ theorem grouped_marker_refines {c : Ast} {sc : List Uid} (h : Base c sc) (hm : N
         simp only [Defs.get]
         simp only at this
         rw [this]; rfl
-  exact refines_through_marker db m _ needed rs ns (by rw [hcs2, hrs, hns]) hready href
+  refine ⟨rs, ns, by rw [hcs2, hrs, hns], hready, ⟨?_, href⟩⟩
+  rw [← hrs]
+  have hkeep := keep_eq (Spec.run db c).visible r.defs.name inv.hname (K.map (·.1))
+    (fun u hu => by obtain ⟨cu, hcu, rfl⟩ := List.mem_map.1 hu; exact hKvis cu hcu)
+  have hvis : (Spec.run db (.summarize i (.groupBy j c K false) (L.map (·.1)) (L.map (·.2.2)) (L.map (·.2.1)) metas)).visible =
+      (((K.map (·.1)).filterMap (fun u => (Spec.run db c).visible.find? (·.2 == u))).filter (fun e => !(L.map (·.1)).contains e.1)) ++
+        (L.map (·.1)).zip (L.map (·.2.1)) := rfl
+  rw [hvis, hkeep]
+  simp only [sumOut, List.map_append]
+  congr 1
+  · rw [List.filter_map, List.map_map]
+    exact sel_keys K (L.map (·.1)) r.defs.name (Defs.name (r.defs ++ newDefs r.defs L))
+      (fun cu hcu => by simp only [Defs.name, get_append_left_defs _ _ _ ((inv.hkeys cu.1).2 (hKsc cu hcu))])
+  · exact (zip_names_snd L).symm
+
+
+/-- **a grouped `summarize` materialised as a subquery still refines the reference semantics** (`summarize >> alias() >> …`) -/
+theorem grouped_marker_refines {c : Ast} {sc : List Uid} (h : Base c sc) (hm : NeededMono c) (db : DB) (m j i : NodeId)
+    (K : List (Uid × ColMeta)) (hK : K ≠ []) (hKsc : ∀ cu ∈ K, cu.1 ∈ sc) (hKnc : ∀ cu ∈ K, cu.2.dtype.isConst = false)
+    (hKnd : (K.map (·.1)).Nodup) (hKvis : ∀ cu ∈ K, ∃ e ∈ (Spec.run db c).visible, e.2 = cu.1)
+    (L : List (String × Uid × Expr)) (metas : List (Dtype × Ftype))
+    (hv : ∀ t ∈ L, ∀ u ∈ t.2.2.uids, u ∈ sc) (hfresh : ∀ t ∈ L, t.2.1 ∉ sc) (hnd : (L.map (·.2.1)).Nodup) (needed : Needed)
+    (hneed : ∀ u ∈ K.map (·.1) ++ L.map (·.2.1), 1 ≤ low needed u)
+    (hnames : ((Spec.run db (.summarize i (.groupBy j c K false) (L.map (·.1)) (L.map (·.2.2)) (L.map (·.2.1)) metas)).visible.map (·.1)).Nodup) :
+    ∃ r2 n2, compile (.subqueryMarker m (.summarize i (.groupBy j c K false) (L.map (·.1)) (L.map (·.2.2)) (L.map (·.2.1)) metas)) needed = .ok (r2, n2) ∧
+      Sql.run db r2 = (Spec.run db (.subqueryMarker m (.summarize i (.groupBy j c K false) (L.map (·.1)) (L.map (·.2.2)) (L.map (·.2.1)) metas))).frame := by
+  obtain ⟨rs, ns, hcs, hready, href⟩ := grouped_below h hm db j i K hK hKsc hKnc hKnd hKvis L metas hv hfresh hnd needed hneed hnames
+  exact refines_through_marker db m _ needed rs ns hcs hready href.frame
+
+/-- **`group_by(K) >> summarize(L) >> alias() >> filter(p over the keys and the aggregates)`**: the documented way to filter on an
+    aggregate (HAVING); the filter is evaluated on the groups' rows, outside the subquery -/
+theorem grouped_alias_filter_refines {c : Ast} {sc : List Uid} (h : Base c sc) (hm : NeededMono c) (db : DB) (f m j i : NodeId)
+    (K : List (Uid × ColMeta)) (hK : K ≠ []) (hKsc : ∀ cu ∈ K, cu.1 ∈ sc) (hKnc : ∀ cu ∈ K, cu.2.dtype.isConst = false)
+    (hKnd : (K.map (·.1)).Nodup) (hKvis : ∀ cu ∈ K, ∃ e ∈ (Spec.run db c).visible, e.2 = cu.1)
+    (L : List (String × Uid × Expr)) (metas : List (Dtype × Ftype))
+    (hv : ∀ t ∈ L, ∀ u ∈ t.2.2.uids, u ∈ sc) (hfresh : ∀ t ∈ L, t.2.1 ∉ sc) (hnd : (L.map (·.2.1)).Nodup) (needed : Needed)
+    (hneed : ∀ u ∈ K.map (·.1) ++ L.map (·.2.1), 1 ≤ low needed u)
+    (hnames : ((Spec.run db (.summarize i (.groupBy j c K false) (L.map (·.1)) (L.map (·.2.2)) (L.map (·.2.1)) metas)).visible.map (·.1)).Nodup)
+    (W : List Expr) (hW : isEwiseList W = true)
+    (hWu : ∀ u ∈ Expr.uidsList W, u ∈ (Spec.run db (.summarize i (.groupBy j c K false) (L.map (·.1)) (L.map (·.2.2)) (L.map (·.2.1)) metas)).visible.map (·.2)) :
+    ∃ r3 n3, compile (.filter f (.subqueryMarker m (.summarize i (.groupBy j c K false) (L.map (·.1)) (L.map (·.2.2)) (L.map (·.2.1)) metas)) W) needed = .ok (r3, n3) ∧
+      Sql.run db r3 = (Spec.run db (.filter f (.subqueryMarker m (.summarize i (.groupBy j c K false) (L.map (·.1)) (L.map (·.2.2)) (L.map (·.2.1)) metas)) W)).frame := by
+  have hneed1 : ∀ u ∈ K.map (·.1) ++ L.map (·.2.1),
+      1 ≤ low ((uidsOfVerb (.filter f (.subqueryMarker m (.summarize i (.groupBy j c K false) (L.map (·.1)) (L.map (·.2.2)) (L.map (·.2.1)) metas)) W)).foldl Needed.incr needed) u := by
+    intro u hu
+    rw [low_foldl_incr]
+    exact Nat.le_trans (hneed u hu) (Nat.le_add_right _ _)
+  obtain ⟨rs, ns, hcs, hready, href⟩ := grouped_below h hm db j i K hK hKsc hKnc hKnd hKvis L metas hv hfresh hnd _ hneed1 hnames
+  exact filter_above_marker db f m _ W needed rs ns hcs hready href hW (fun u hu => by rw [href.sel]; exact hWu u hu)
 
 end Pdt.C08
